@@ -89,6 +89,17 @@ def rand_script(rng, n, events, nodef=False):
                 script.append(dict(a="SaveReject"))
             busy = bool(flights)
             continue
+        if r < 0.04 and not busy and not pend and not evq and not flights:
+            # a bare string assigned to the list-valued port option and saved; until Tor's announcement of that save has
+            # arrived the view of that option is not compared (the code shows the bare string meanwhile)
+            x = rng.choice([e for e in elems if [e] != tor["l2"]])
+            script.append(dict(a="Assign", o="l2", v=[x], bare=True))
+            script.append(dict(a="SaveSend", skipview=["l2"]))
+            script.append(dict(a="SaveAck", skipview=["l2"]))
+            tor["l2"] = [x]
+            view["l2"] = [x]
+            script.append(dict(a="Deliver", chs=[dict(o="l2", v=[x])]))
+            continue
         if r < 0.55:
             o = rng.choice(["s1", "s2"])
             v = [rng.choice(["a", "b"])]
